@@ -26,6 +26,11 @@ func VerifC16G711() {
 	mtu := verifU16("mtu")
 	verifAssume(mtu >= 1)
 	in := verifBytes("in", n)
+	if verifCase("spare-capacity", 0, 1) == 1 {
+		// a slice of a larger receive buffer: the bytes behind len(in) are not input
+		backing := append(append([]byte{}, in...), verifBytes("behind", 3)...)
+		in = backing[:n]
+	}
 	frags := (&G711Payloader{}).Payload(mtu, in)
 	verifC16Split(frags, in, mtu, "g711")
 	verifCover("C16.g711.end")
@@ -36,6 +41,11 @@ func VerifC16G722() {
 	mtu := verifU16("mtu")
 	verifAssume(mtu >= 1)
 	in := verifBytes("in", n)
+	if verifCase("spare-capacity", 0, 1) == 1 {
+		// a slice of a larger receive buffer: the bytes behind len(in) are not input
+		backing := append(append([]byte{}, in...), verifBytes("behind", 3)...)
+		in = backing[:n]
+	}
 	frags := (&G722Payloader{}).Payload(mtu, in)
 	verifC16Split(frags, in, mtu, "g722")
 	verifCover("C16.g722.end")
@@ -45,10 +55,16 @@ func VerifC16Opus() {
 	n := verifCase("len", 0, verifBound("C16.len"))
 	mtu := verifU16("mtu")
 	in := verifBytes("in", n)
-	frags := (&OpusPayloader{}).Payload(mtu, in)
+	opus := &OpusPayloader{}
+	frags := opus.Payload(mtu, in)
 	verifAssert("C16.opus.one", len(frags) == 1)
 	verifAssert("C16.opus.equal", verifEqBytes(frags[0], in))
 	verifAssert("C16.opus.owned", verifDisjoint(frags[0], in))
+	// a second packet through the same payloader: the first fragment is the caller's
+	next := verifBytes("next", verifCase("next.len", 1, 2))
+	frags2 := opus.Payload(mtu, next)
+	verifAssert("C16.opus.second", len(frags2) == 1 && verifEqBytes(frags2[0], next) && verifDisjoint(frags2[0], next))
+	verifAssert("C16.opus.first-unchanged", verifEqBytes(frags[0], in) && verifDisjoint(frags[0], frags2[0]))
 	// nil input: no fragment or one empty fragment, never a panic
 	nf := (&OpusPayloader{}).Payload(mtu, nil)
 	verifAssert("C16.opus.nil", len(nf) == 0 || (len(nf) == 1 && len(nf[0]) == 0))
